@@ -30,6 +30,11 @@ def moveDtoE : Req := { m := .move, src := ⟨p ["d"], true⟩, dst := .ok ⟨p 
 
 def seq1 : List Req := [putA, putBad, mkcolB, copyDtoF, moveAtoDz, delD]
 
+/-- a URL space narrower than the document root in which WebDAV is enabled: /R/d/ -/
+def scope : Path := p ["d"]
+/-- request inside the scope whose Destination names a resource outside of it (but inside the root) -/
+def copyDxToA : Req := { m := .copy, src := ⟨p ["d", "x"], false⟩, dst := .ok ⟨p ["a"], false⟩ }
+
 end LtVerif.Dav.Ex
 
 namespace LtVerif.DavPut.Ex
@@ -50,13 +55,26 @@ def runAbort : List Ev := [e .openTmpfile, e .write true 2, e .close]
 /-- linkat() fails: staged by name -/
 def runByName : List Ev :=
   [e .openTmpfile, e .write true 5, e .link false, e .openTmpExcl, e .write true 5, e .close, e .closeTmp, e .rename]
-/-- Content-Range: copy, patch, rename -/
-def runPart : List Ev := [e .openOld, e .openTmpExcl, e .copyOld true 4, e .write true 2, e .rename, e .closeTmp]
+/-- Content-Range: copy, patch, close, rename -/
+def runPart : List Ev := [e .openOld, e .openTmpExcl, e .copyOld true 4, e .write true 2, e .closeTmp, e .rename]
 /-- Content-Range with a failed write: the staged copy is unlinked, never renamed -/
 def runPartFail : List Ev :=
   [e .openOld, e .openTmpExcl, e .copyOld true 4, e .write true 1, e .write false, e .unlinkTmp, e .closeTmp]
-/-- what the pinned tree does instead (rename after the failed write): not a word of the protocol -/
+/-- Content-Range with a failed close() (deferred write error): unlinked, never renamed -/
+def runPartCloseFail : List Ev :=
+  [e .openOld, e .openTmpExcl, e .copyOld true 4, e .write true 2, e .closeTmp false, e .unlinkTmp]
+/-- rename after the failed write (what the code as found did): not a word of the protocol -/
 def runPartBug : List Ev :=
   [e .openOld, e .openTmpExcl, e .copyOld true 4, e .write true 1, e .write false, e .rename, e .closeTmp]
+/-- rename before close (what the code as found did; a close() error then comes too late): not a word -/
+def runPartBug2 : List Ev :=
+  [e .openOld, e .openTmpExcl, e .copyOld true 4, e .write true 2, e .rename, e .closeTmp]
+/-- zero-length PUT over an existing file: O_EXCL fails, an empty staged file is renamed into place -/
+def cZero : Cfg := { kind := .zero, old := some (ofString "old"), body := [] }
+def runZero : List Ev := [e .openExcl false, e .openTmpExcl, e .closeTmp, e .rename]
+/-- truncating in place (what the code as found did): not a word of the protocol -/
+def runZeroBug : List Ev := [e .openExcl false, e .openTrunc, e .close]
+/-- a schedule for the generator: the 2nd call fails, writes transfer 2 bytes at a time -/
+def sched (k : Nat) : Res := { ok := k != 1, n := 2 }
 
 end LtVerif.DavPut.Ex
